@@ -6,6 +6,7 @@ import MesaModel.Proofs.DevsOrder
 import MesaModel.Proofs.DevsDoomed
 import MesaModel.Proofs.DevsShared
 import MesaModel.Proofs.DevsRaise
+import MesaModel.Proofs.DevsHistory
 /-!
 # C14 — the simulators run each live event once, in (time, priority, FIFO) order
 
@@ -212,19 +213,21 @@ theorem C14_priority_order_generated :
 
 /-! ### at least once
 
-`Served k c t s`: the user event with tag `k` and callable object `c`, scheduled for time `t`, is waiting on the list (neither
-cancelled nor with a dead callable) or has been executed with the clock at exactly `t`.  `ProgsSpare k c s`: no callable (event
+`Served k c i t s`: the user event with tag `k`, callable object `c` and event id `i`, scheduled for time `t`, is waiting on the list
+(neither cancelled nor with a dead callable) or has been executed — that very event: `LogEntry.user i k t` is in the log — with the
+clock at exactly `t`.  `ProgsSpare k c s`: no callable (event
 program or step body) cancels tag `k` or drops the callable `c`; `ReachableSparing k c s s'`: `s'` is reached from `s` by any
 further history whose top-level commands do not cancel `k` / drop `c` either (scheduling — also of `c` again —, cancellations of
 other events, *including events that share the callable `c`*, drops of other callables, runs of any kind are all allowed).
-For an ordinary scheduling call the callable is fresh and `c = k`. -/
+For an ordinary scheduling call the callable is fresh and `c = k`; the id is the value of the id counter at the scheduling call.
+`ProgsSpare` is a syntactic condition over ALL programs of the table, also those that never run: sufficient, not necessary. -/
 
 /-- **At least once (absolute scheduling).**  An event that was accepted by `schedule_event_absolute` and that nobody cancels or
     drops stays served through every further history: it is never lost, and when it runs the clock is the time it was
     scheduled for. -/
 theorem C14_spared_event_is_served {s s₀ s' : Sim} {t : Int} {p a : Nat} (hs : schedAbs s t p a = .ok s₀)
     (hps : ProgsSpare s.nextTag s.nextTag s) (hr : ReachableSparing s.nextTag s.nextTag s₀ s') :
-    Served s.nextTag s.nextTag t s' := by
+    Served s.nextTag s.nextTag s.nextId t s' := by
   unfold schedAbs at hs
   split at hs
   · simp at hs
@@ -237,7 +240,7 @@ theorem C14_spared_event_is_served {s s₀ s' : Sim} {t : Int} {p a : Nat} (hs :
 /-- **At least once (relative scheduling, `schedule_event_now`, `schedule_event_next_tick`).** -/
 theorem C14_spared_event_is_served_rel {s s₀ s' : Sim} {d : Int} {p a : Nat} (hs : schedRel s d p a = .ok s₀)
     (hps : ProgsSpare s.nextTag s.nextTag s) (hr : ReachableSparing s.nextTag s.nextTag s₀ s') :
-    Served s.nextTag s.nextTag (s.now + d) s' := by
+    Served s.nextTag s.nextTag s.nextId (s.now + d) s' := by
   unfold schedRel at hs
   split at hs
   · simp at hs
@@ -248,16 +251,30 @@ theorem C14_spared_event_is_served_rel {s s₀ s' : Sim} {d : Int} {p a : Nat} (
       exact (served_stays (pushUser_serves s (s.now + d) p a) hps hr).1
 
 /-- **Every live event that is due is executed by `run_until`** — including events scheduled from inside other events, in
-    any reachable state, after any further history: after `run_until(T)` an uncancelled, undropped event scheduled for
-    `t ≤ T` is in the execution log, with the clock at `t`.  With `C14_never_twice`: exactly once. -/
+    any reachable state, after any further history: after a `run_until(T)` that returns normally, an uncancelled, undropped
+    event scheduled for `t ≤ T` is in the execution log — the very event the call created (id = the id counter at the call) —,
+    with the clock at `t`.  With `C14_never_twice`: exactly once. -/
 theorem C14_spared_due_event_executed {s s₀ s' s'' : Sim} {t T : Int} {p a f : Nat} (h : Reachable s)
     (hs : schedAbs s t p a = .ok s₀) (hps : ProgsSpare s.nextTag s.nextTag s) (hr : ReachableSparing s.nextTag s.nextTag s₀ s')
     (hT : s'.now ≤ T) (hrun : runUntil f s' T = some s'') (hn : s''.raised = none) (htT : t ≤ T) :
-    ∃ i, LogEntry.user i s.nextTag t ∈ s''.log := by
+    LogEntry.user s.nextId s.nextTag t ∈ s''.log := by
   have hw' : WF s' := reachableFrom_wf (schedAbs_wf (reachable_inv h).1 hs) (reachableSparing_from hr)
   have hserved := C14_spared_event_is_served hs hps (.until hr hT hrun)
   obtain ⟨_, hpost, _⟩ := runUntil_post hw' hrun hn
-  rcases hserved with ⟨e, he, _, _, _, h3, h4, _⟩ | hlog
+  rcases hserved with ⟨e, he, _, _, _, _, h3, h4, _⟩ | hlog
+  · have := hpost e he h4
+    omega
+  · exact hlog
+
+/-- The same for relative scheduling (`schedule_event_relative`, `schedule_event_now`, `schedule_event_next_tick`). -/
+theorem C14_spared_due_event_executed_rel {s s₀ s' s'' : Sim} {d T : Int} {p a f : Nat} (h : Reachable s)
+    (hs : schedRel s d p a = .ok s₀) (hps : ProgsSpare s.nextTag s.nextTag s) (hr : ReachableSparing s.nextTag s.nextTag s₀ s')
+    (hT : s'.now ≤ T) (hrun : runUntil f s' T = some s'') (hn : s''.raised = none) (htT : s.now + d ≤ T) :
+    LogEntry.user s.nextId s.nextTag (s.now + d) ∈ s''.log := by
+  have hw' : WF s' := reachableFrom_wf (schedRel_wf (reachable_inv h).1 hs) (reachableSparing_from hr)
+  have hserved := C14_spared_event_is_served_rel hs hps (.until hr hT hrun)
+  obtain ⟨_, hpost, _⟩ := runUntil_post hw' hrun hn
+  rcases hserved with ⟨e, he, _, _, _, _, h3, h4, _⟩ | hlog
   · have := hpost e he h4
     omega
   · exact hlog
@@ -273,7 +290,7 @@ when the program drops its last strong reference to `c`, every one of them is de
     as long as nobody cancels *this* event or drops `c` — cancelling any other event that shares `c` is allowed. -/
 theorem C14_shared_callable_event_is_served {s s₀ s' : Sim} {c : Nat} {d : Int} {p : Nat}
     (hs : again s c d p = some (.ok s₀)) (hps : ProgsSpare s.nextTag c s) (hr : ReachableSparing s.nextTag c s₀ s') :
-    Served s.nextTag c (s.now + d) s' := by
+    Served s.nextTag c s.nextId (s.now + d) s' := by
   unfold again at hs
   split at hs
   · simp at hs
@@ -292,7 +309,7 @@ theorem C14_shared_callable_event_is_served {s s₀ s' : Sim} {c : Nat} {d : Int
 theorem C14_shared_due_event_executed {s s₀ s' s'' : Sim} {c : Nat} {d T : Int} {p f : Nat} (h : Reachable s)
     (hs : again s c d p = some (.ok s₀)) (hps : ProgsSpare s.nextTag c s) (hr : ReachableSparing s.nextTag c s₀ s')
     (hT : s'.now ≤ T) (hrun : runUntil f s' T = some s'') (hn : s''.raised = none) (htT : s.now + d ≤ T) :
-    ∃ i, LogEntry.user i s.nextTag (s.now + d) ∈ s''.log := by
+    LogEntry.user s.nextId s.nextTag (s.now + d) ∈ s''.log := by
   have hw0 : WF s₀ := by
     unfold again at hs
     split at hs
@@ -302,7 +319,7 @@ theorem C14_shared_due_event_executed {s s₀ s' s'' : Sim} {c : Nat} {d T : Int
   have hw' : WF s' := reachableFrom_wf hw0 (reachableSparing_from hr)
   have hserved := C14_shared_callable_event_is_served hs hps (.until hr hT hrun)
   obtain ⟨_, hpost, _⟩ := runUntil_post hw' hrun hn
-  rcases hserved with ⟨e, he, _, _, _, h3, h4, _⟩ | hlog
+  rcases hserved with ⟨e, he, _, _, _, _, h3, h4, _⟩ | hlog
   · have := hpost e he h4
     omega
   · exact hlog
@@ -430,6 +447,20 @@ theorem C14_execution_order {s s' : Sim} {f : Nat} {T : Int} (h : Reachable s) (
   have hw := (reachable_inv h).1
   exact ⟨tr, htr, runUntilT_log htr, runUntilT_ordered hw htr, runUntilT_born hw htr⟩
 
+/-- **Order of execution over a whole history** (`Proofs/DevsHistory.lean`).  `runHistT` runs any list of steps — top-level
+    commands, `run_until` / `run_for` / `run_next_event` calls (cut short by exceptions or not), catches — and returns the trace
+    of everything executed on the way (`run_next_event` contributes its one event).  The log grows by exactly the trace; of two
+    events executed anywhere in the history — in the same run call or in different ones — the earlier has the smaller
+    (time, priority, id) key unless the later one was scheduled only after the earlier one had been popped; and every executed
+    event precedes, in that sense, everything that is still pending at the end. -/
+theorem C14_execution_order_history {s s' : Sim} {f : Nat} {sts : List Step} {tr : List (Ev × Nat)} (h : Reachable s)
+    (hr : runHistT f s sts = some (s', tr)) :
+    s'.log = s.log ++ tr.flatMap (fun y => logOf y.1) ∧
+    tr.Pairwise (fun x y => x.1.lt y.1 = true ∨ x.2 ≤ y.1.id) ∧
+    ∀ x ∈ tr, ∀ z ∈ s'.pending, x.1.lt z = true ∨ x.2 ≤ z.id := by
+  obtain ⟨_, ht, hl⟩ := runHistT_spec (reachable_inv h).1 hr
+  exact ⟨hl, ht.ordered, fun x hx => (ht.ahead x hx).1⟩
+
 /-! non-vacuity: a concrete run with ties, nested scheduling and a cancellation -/
 section Example
 def exProg : Nat → List Cmd
@@ -456,6 +487,10 @@ example : ((runUntil 10 ex1 4096).map fun s => s.log) =
     `C14_execution_order` is needed and is tight -/
 example : ((runUntilT 10 ex1 4096).map fun p => p.2.map fun y => (y.1.id, y.1.prio, y.2)) =
     some [(2, 1, 3), (1, 10, 3), (3, 5, 4)] := by decide
+/-- a history in pieces with a command in between: `run_next_event` (id 2), a new HIGH event for the same time scheduled at top
+    level (id 3: smaller key than id 1, but scheduled after id 2 was popped — it still runs before id 1), `run_until` -/
+example : ((runHistT 10 ex1 [.next, .cmd (.schedAbs 1024 1 0), .until 4096]).map fun p => p.2.map fun y => (y.1.id, y.1.prio, y.2)) =
+    some [(2, 1, 3), (3, 1, 4), (1, 10, 4), (4, 5, 5)] := by decide
 
 /-- shared callable: the callable of tag 0 is scheduled three times (tags 0, 1, 2 share `fn = 0`); tag 1 is cancelled — tags 0
     and 2 still run (independence); a HIGH-priority event (tag 3, program 1) drops callable 0 at time 2048, just before tag 2
